@@ -46,8 +46,9 @@ class C08(Check):
     required_probes = {'thorough': ['cols', 'n1', 'broadcast', 'heun_corrector', 'adaptive_events', 'converge']}
 
     def strata(self, tier):
+        # S-fortran: every run is an f2py build (~5 s): few runs, all with heun/euler and a time-varying input
         return [('S-fixed', 5), ('S-adaptive', 3), ('S-cols', 2), ('S-depth2', 1), ('S-probe', 2), ('S-torch', 1),
-                ('S-jax', 1)]
+                ('S-jax', 1), ('S-fortran', 0.25)]
 
     def prepare_parent(self):
         try:
@@ -81,12 +82,15 @@ class C08(Check):
         if stratum == 'S-adaptive' or (stratum == 'S-torch' and rng.random() < 0.6):
             solver = 'scipy'
             kw = {'method': rng.choice(['RK45', 'DOP853', 'RK23', 'LSODA']), 'rtol': 1e-5, 'atol': 1e-7}
-        elif stratum == 'S-jax':
+        elif stratum in ('S-jax', 'S-fortran'):
             solver = rng.choice(['euler', 'heun'])
+            # rows stored every m-th step: the step counter that selects the input sample must keep counting solver steps
+            m_sub = rng.choice([1, 2, 5])
+            steps = m_sub * rng.randint(2, 10)
         elif rng.random() < 0.35 and stratum != 'S-torch':
             solver = 'heun'
         N = steps if (solver != 'scipy' or rng.random() < 0.5) else steps + rng.randint(1, 9)
-        vec = rng.random() < 0.5 or stratum == 'S-cols'
+        vec = (rng.random() < 0.5 or stratum == 'S-cols') and stratum != 'S-fortran'
         inputs = []
         opnames = sorted({o for (_, o) in net.inst})
         for i in range(rng.randint(1, 3)):
@@ -131,7 +135,8 @@ class C08(Check):
                 vec = True
         cfg = {'dt': dt, 'steps': steps, 'N': N, 'solver': solver, 'solver_kw': kw, 'vectorize': vec,
                'precision': 'float64', 'inputs': inputs, 'mode': 'probe' if stratum == 'S-probe' else 'run',
-               'backend': {'S-torch': 'torch', 'S-jax': 'jax'}.get(stratum, 'default'),
+               'backend': {'S-torch': 'torch', 'S-jax': 'jax', 'S-fortran': 'fortran'}.get(stratum, 'default'),
+               'm': m_sub if stratum in ('S-jax', 'S-fortran') else 1,
                'probe_times': [], 'adaptive_probe': False}
         if stratum == 'S-probe':
             cfg['adaptive_probe'] = rng.random() < 0.6
@@ -285,14 +290,16 @@ class C08(Check):
         T_grid = T
         rec = Recorder()
         outputs = {f'o{i}': n for i, n in enumerate(names)}
-        if cfg.get('backend') == 'jax':
-            # lax.scan traces the RHS once: no per-evaluation record.  The returned iterates are compared with the
-            # reference iterates in which sample k drives BOTH stages of step k (what the property states)
+        if cfg.get('backend') in ('jax', 'fortran'):
+            # lax.scan traces the RHS once / the f2py routine is not a Python callable: no per-evaluation record.  The
+            # returned iterates are compared with the reference iterates in which sample k drives BOTH stages of step k
+            m_sub = cfg.get('m', 1)
+            skw = {'sampling_step_size': m_sub * dt} if m_sub > 1 else {}
             try:
                 R = c.run(T, dt, inputs=inputs, outputs=outputs, solver=cfg['solver'], vectorize=cfg['vectorize'],
-                          float_precision='float64', verbose=False, backend='jax')
+                          float_precision='float64', verbose=False, backend=cfg['backend'], **skw)
             except Exception as e:
-                res['discard'] = f'refused on jax: {type(e).__name__}: {str(e)[:60]}'
+                res['discard'] = f'refused on {cfg["backend"]}: {type(e).__name__}: {str(e)[:60]}'
                 return res
 
             def extra_at(k, traj, shift=0):
@@ -302,15 +309,20 @@ class C08(Check):
             traj = stepper(net, dt, steps, extra_at)
             for i, n in enumerate(names):
                 g = np.asarray(R[f'o{i}'].values, dtype=float)
-                for row in range(min(len(g), steps)):
-                    wv = traj[row][n]
+                if len(g) != steps // m_sub:
+                    V('L-sample', 'silent', 'rows', f'{len(g)} rows returned for {steps} steps stored every {m_sub}')
+                    return res
+                for row in range(len(g)):
+                    wv = traj[row * m_sub][n]
                     if abs(g[row] - wv) > 1e-9 * max(1.0, abs(wv)):
-                        V('L-sample', 'silent', 'jax-' + cfg['solver'],
-                          f'{n} row {row}: jax {cfg["solver"]} returned {g[row]!r}, reference with sample k held during step k '
-                          f'(both stages) gives {wv!r}; extrinsic sources {who}')
+                        V('L-sample', 'silent', cfg['backend'] + '-' + cfg['solver'],
+                          f'{n} row {row} (step {row * m_sub}): {cfg["backend"]} {cfg["solver"]} returned {g[row]!r}, reference with '
+                          f'sample k held during step k (both stages) gives {wv!r}; extrinsic sources {who}')
                         return res
             res['nontrivial'] = bool(who) and steps >= 3
-            res['probes']['jax'] = 1
+            res['probes'][cfg['backend']] = 1
+            if m_sub > 1:
+                res['probes']['subsampled'] = 1
             return res
         try:
             R = c.run(T, dt, inputs=inputs, outputs=outputs, solver=cfg['solver'], vectorize=cfg['vectorize'],
